@@ -119,9 +119,9 @@ dspec.contract(
         ('y stored, x cleared, parameters attached', lambda s: And(
             Not(IsNone(s.self._y)), arr(s.self._y) == arr(s.y),
             IsNone(s.self._x), IsNone(s.self._corr),
-            IsNone(s.self._required_impact),
-            unwrap(s.self._par).oid == unwrap(s.par).oid)),
-    ])
+            IsNone(s.self._required_impact))),
+    ],
+    binds={'self._par': lambda s: s.par})
 
 dspec.contract(
     'TBRMMDiagnostics.x.setter',
@@ -200,9 +200,7 @@ def SCORE(x, y, par, k):
 
 def score_is(tup, x, y, par):
   t = unwrap(tup)
-  return z3.And([N(t.items[k]) == SCORE(x, y, par, k) for k in range(6)] + [
-      N(t.items[5]) * EST(y, par, CORR(x, y)) == 1] if False else
-                [N(t.items[k]) == SCORE(x, y, par, k) for k in range(6)])
+  return z3.And([N(t.items[k]) == SCORE(x, y, par, k) for k in range(6)])
 
 
 sspec.contract(
